@@ -262,7 +262,15 @@ def main(rep, ws, tier):
             want = {2: loc('a2', 'a5', 0), 3: loc('a3', 'a4', 0), 4: loc('a3', 'a4', 1), 5: loc('a2', 'a5', 1)}
             for i, w in want.items():
                 if not ctx.requal(res[i], w): return ('window member %d is %s' % (i, P.show_rat(res[i], ctx)[:120]), None, fn_where(S.fn))
-            return (None, 'left/bottom = screenToLocal(l,b), right/top = screenToLocal(r,t)', fn_where(S.fn))
+            # the projection kind is part of the frustum: the sub-window of an orthographic frustum is orthographic
+            ko = S.out('a0', 8 + 6 * sz, 1, 'i8'); ki = T.inp('a1', 8 + 6 * sz, 1, 'i8')
+            def same_flag(a, b):
+                if a is b: return True
+                for x, y in ((a, b), (b, a)):      # bool normalisation: and(flag, 1) / zext(trunc(flag))
+                    if x.op == 'and' and any(z is y for z in x.args) and any(z.op == 'const' and z.attr[1] == 1 for z in x.args): return True
+                return False
+            if not same_flag(ko, ki): return ('window() does not keep the projection kind: orthographic flag of the result is %s' % T.show(ko, 3), None, fn_where(S.fn))
+            return (None, 'left/bottom = screenToLocal(l,b), right/top = screenToLocal(r,t); near, far and the orthographic flag are kept', fn_where(S.fn))
         ob('window', 'R16.proj', window)
 
         # ---------------- depth
